@@ -183,4 +183,14 @@ def validateRepoExit (se sw : List Str) (root hier : VResult) (objs : List (Opti
 /-- `ls`: listing continues past an object that cannot be read, but the exit status is 1 -/
 def listExit (readErrors : Nat) : Nat := if readErrors = 0 then 0 else 1
 
+/-! ### which results `validate` prints -/
+
+/-- the verbosity option (`-l`) of `rocfl validate` -/
+inductive Level | info | warn | error
+  deriving DecidableEq, Repr
+
+/-- `ValidateCmd::should_print` (cmd/validate.rs): is the result of one object shown at this level -/
+def shouldPrint (level : Level) (r : VResult) : Bool :=
+  !r.errors.isEmpty || (!r.warnings.isEmpty && level != .error) || level == .info
+
 end Rocfl.Cli
